@@ -76,7 +76,12 @@ class ExprBuilder:
             return self.memo[l]
         body = self.body
         if 1 <= l <= body.argc:
-            node = ("arg", l, body.names.get(l, "_%d" % l))
+            if body.defs().get(l):
+                # a parameter that is overwritten in the body is not the caller's value any more: it gets a name of its own, so that a
+                # formula written in terms of the parameter does not silently match after `x = f(x)`
+                node = ("var", l, "%s(reassigned)" % body.names.get(l, "_%d" % l))
+            else:
+                node = ("arg", l, body.names.get(l, "_%d" % l))
             self.memo[l] = node
             return node
         wd = body.whole_defs(l)
